@@ -66,6 +66,13 @@ def more_models():
         spec = catalog.hierarchy(shape, adds)
         out.append(('hier', spec))
         out.append(('hier', {'classes': spec['classes'], 'root': ('list', ('cls', 'C0'), 'Sequence')}))
+    # exactly one registered class (any "only one class" short-cut shows when unrelated classes are added)
+    out.append(('single', {'classes': [{'name': 'K', 'params': [('x', 'int'), ('y', 'str', 'd')]}], 'root': ('cls', 'K')}))
+    out.append(('single', {'classes': [{'name': 'K', 'params': [('x', 'int'), ('a_b', 'int', 0)], 'extra': True}], 'root': ('cls', 'K')}))
+    out.append(('single', {'classes': [{'name': 'K', 'params': [('x', 'int')], 'abstract': 'abc'}], 'root': ('cls', 'K')}))
+    out.append(('single', {'classes': [{'name': 'K', 'params': [('x', 'int')]}], 'root': ('list', ('opt', ('cls', 'K')))}))
+    out.append(('single', {'classes': [{'name': 'W', 'kind': 'userstring'}], 'root': ('dict', ('cls', 'W'), 'int')}))
+    out.append(('single', {'classes': [{'name': 'En', 'kind': 'enum', 'members': ['a', 'true']}], 'root': ('list', ('cls', 'En'))}))
     spec = catalog.hierarchy('fork2', ['req', 'req'])
     spec['classes'].append({'name': 'H', 'params': [('c', ('cls', 'C0')), ('l', ('list', ('cls', 'C1')), None),
                                                     ('d', ('dict', 'str', ('list', 'int')), None)], 'extra': True})
@@ -469,7 +476,7 @@ def run_unit(unit, tier):
 
 
 def finish(total, tier):
-    for k in ('pair-perm:ok', 'pair-perm:fail', 'pair-style:ok', 'pair-style:fail', 'pair-extra:ok', 'pair-generic:ok',
+    for k in ('pair-perm:ok', 'pair-perm:fail', 'pair-style:ok', 'pair-style:fail', 'pair-extra:ok', 'pair-extra:fail', 'pair-generic:ok',
               'pair-generic:fail', 'pair-buf:ok', 'pair-buf:fail'):
         if total.hist[k] < 50:
             raise core.Vacuous('transformation class %s exercised only %d times' % (k, total.hist[k]))
